@@ -19,3 +19,54 @@ package bfe_http
 //@   loop 1 invariant[count] 0 <= rangeindex+1 && rangeindex+1 <= len(v) && rangeindex+1 <= 16
 //@   loop 1 invariant[prefix_hex] forall k int :: 0 <= k && k <= rangeindex ==> isHex(v[k])
 //@   loop 1 invariant[prefix_value] n == hexval(v, rangeindex+1)
+
+// ---- C26: header map operations used by the hop-by-hop removal ----
+
+//@ func (Header).Get
+//@   props C26
+//@   nopanic
+//@   modifies nothing
+//@   ensures[first_value_of_the_canonical_key_or_empty] result0 == ((h != nil && has(h, canonKey(key)) && len(h[canonKey(key)]) > 0) ? h[canonKey(key)][0] : "")
+
+//@ func (Header).Values
+//@   props C26
+//@   nopanic
+//@   modifies nothing
+//@   ensures[values_of_the_canonical_key] (h == nil || !has(h, canonKey(key))) ==> len(result0) == 0
+//@   ensures[values_of_the_canonical_key_when_present] h != nil && has(h, canonKey(key)) ==> sameslice(result0, h[canonKey(key)])
+
+//@ func (Header).Del
+//@   props C26
+//@   nopanic
+//@   modifies h[..]
+//@   ensures[the_canonical_key_is_gone] !has(h, canonKey(key))
+//@   ensures[other_keys_are_kept] forall k string :: k != canonKey(key) ==> (has(h, k) <==> old(has(h, k)))
+//@   ensures[other_values_are_kept] forall k string :: k != canonKey(key) ==> sameslice(h[k], old(h[k]))
+
+//@ func (Header).Add
+//@   props C26
+//@   requires h != nil
+//@   let k0 := canonKey(key)
+//@   modifies h[..], h[k0][len(h[k0]):cap(h[k0])]
+//@   ensures[the_canonical_key_is_present] has(h, canonKey(key))
+//@   ensures[other_keys_are_kept] forall k string :: k != canonKey(key) ==> (has(h, k) <==> old(has(h, k)))
+//@   ensures[other_values_are_kept] forall k string :: k != canonKey(key) ==> sameslice(h[k], old(h[k]))
+//@   ensures[grown_in_place_or_freshly_allocated] base(h[canonKey(key)]) == old(base(h[canonKey(key)])) || !allocated(h[canonKey(key)])
+
+// header maps built by the parsers hold canonical field names only
+//@ spec canonicalKeys(h Header) bool := forall k string :: has(h, k) ==> canonKey(k) == k
+
+//@ func CopyHeader
+//@   props C26
+//@   requires dst != nil
+//@   requires[no_aliasing] dst != src
+//@   requires[source_holds_canonical_names] canonicalKeys(src)
+//@   requires[destination_is_empty] forall k string :: !has(dst, k)
+//@   modifies dst[..]
+//@   ensures[no_field_appears_from_nowhere] forall k string :: has(dst, k) ==> has(src, k)
+//@   assumes[an_empty_destination_receives_exactly_the_source_values] forall k string :: has(dst, k) ==> len(dst[k]) == len(src[k]) && len(dst[k]) > 0 && (forall j int :: 0 <= j && j < len(dst[k]) ==> dst[k][j] == src[k][j])
+//@   note the assumed clause is what the two range loops do for canonical source keys; it is not proved because range-over-map is modelled without a visited set (each iteration sees an arbitrary present key)
+//@   loop 1 invariant[only_source_fields_so_far] forall k string :: has(dst, k) ==> has(src, k)
+//@   loop 1 invariant[values_live_in_fresh_arrays] forall k string :: has(dst, k) ==> !allocated(dst[k])
+//@   loop 2 invariant[only_source_fields_so_far] forall k string :: has(dst, k) ==> has(src, k)
+//@   loop 2 invariant[values_live_in_fresh_arrays] forall k string :: has(dst, k) ==> !allocated(dst[k])
